@@ -129,10 +129,7 @@ def expectObs (want : Option (Nat × List (Nat × Nat × Int))) (weighted : Bool
       else some "arc set differs from the given input"
   | some _, _ => some "unreadable observation"
 
-def hFromRows : Handler := fun _ args observed =>
-  match args with
-  | [repr, rows] => do
-    let repr ← V.atom? repr
+def runFromRows (repr : String) (rows : V) (extra : List String) (observed : List V) : Option Verdict := do
     if repr == "al" || repr == "am" then
       let rows0 ← V.listOf? (V.listOf? V.nat?) rows
       let rows := rows0.map Gen.ssetOf
@@ -142,7 +139,8 @@ def hFromRows : Handler := fun _ args observed =>
       let selfLoop := arcs.any (fun a => a.1 == a.2)
       let oob := arcs.any (fun a => a.2 ≥ n)
       let want := if n = 0 || selfLoop || oob then none else some (n, arcs.map (fun a => (a.1, a.2, (1 : Int))))
-      let tags := [repr, sizeTag n, if n = 0 then "empty" else if selfLoop then "self-loop" else if oob then "head-out-of-range" else "valid"]
+      let mixed := rows.zipIdx.any (fun p => p.1.any (· ≥ n) && p.1.any (fun v => v < n && v != p.2))
+      let tags := extra ++ [repr, sizeTag n, if n = 0 then "empty" else if selfLoop then "self-loop" else if oob then (if mixed then "head-out-of-range-mixed" else "head-out-of-range") else "valid"]
       pure (classify observed model (expectObs want false observed) (nt := want.isSome && !arcs.isEmpty) tags)
     else if repr == "wu" || repr == "wi" then
       let rows0 ← V.listOf? (V.listOf? (V.pair? V.nat? V.int?)) rows
@@ -153,15 +151,33 @@ def hFromRows : Handler := fun _ args observed =>
       let selfLoop := arcs.any (fun a => a.1 == a.2.1)
       let oob := arcs.any (fun a => a.2.1 ≥ n)
       let want := if n = 0 || selfLoop || oob then none else some (n, arcs)
-      let tags := [repr, sizeTag n, if n = 0 then "empty" else if selfLoop then "self-loop" else if oob then "head-out-of-range" else "valid"]
+      let mixed := rows.zipIdx.any (fun p => p.1.any (fun e => e.1 ≥ n) && p.1.any (fun e => e.1 < n && e.1 != p.2))
+      let tags := extra ++ [repr, sizeTag n, if n = 0 then "empty" else if selfLoop then "self-loop" else if oob then (if mixed then "head-out-of-range-mixed" else "head-out-of-range") else "valid"]
       pure (classify observed model (expectObs want true observed) (nt := want.isSome && !arcs.isEmpty) tags)
     else none
+
+def hFromRows : Handler := fun _ args observed =>
+  match args with
+  | [repr, rows] => do runFromRows (← V.atom? repr) rows [] observed
   | _ => none
 
-def hFromArcs : Handler := fun _ args observed =>
+/-- the entries a lazy iterator over `Vec<Option<_>>` really yields -/
+def effective (shape : String) (entries : List V) : Option (List V) :=
+  match shape with
+  | "mapwhile" | "takewhile" => some (entries.takeWhile (fun e => !(e == V.a "none")))
+  | "flatten" | "filter" => some (entries.filter (fun e => !(e == V.a "none")))
+  | _ => none
+
+def hFromRowsLazy : Handler := fun _ args observed =>
   match args with
-  | [repr, arcs] => do
-    let repr ← V.atom? repr
+  | [repr, shape, .l entries] => do
+    let shape ← V.atom? shape
+    let eff ← effective shape entries
+    let window := if eff.length < entries.length then "hint>len" else "hint=len"
+    runFromRows (← V.atom? repr) (.l eff) ["lazy", shape, window] observed
+  | _ => none
+
+def runFromArcs (repr : String) (arcs : V) (extra : List String) (observed : List V) : Option Verdict := do
     let arcs ← V.listOf? (V.pair? V.nat? V.nat?) arcs
     let model ← match repr with
       | "mx" => some (outOf obsMX (MX.fromArcs arcs))
@@ -175,11 +191,52 @@ def hFromArcs : Handler := fun _ args observed =>
       if selfLoop then expectObs none false observed
       else if arcs.isEmpty then (if repr == "mx" then expectObs none false observed else none)
       else expectObs (some (n, canon.map (fun a => (a.1, a.2, (1 : Int))))) false observed
-    let tags := [repr, sizeTag n, if selfLoop then "self-loop" else if arcs.isEmpty then "empty" else if dup then "valid-dups" else "valid"]
+    let tags := extra ++ [repr, sizeTag n, if selfLoop then "self-loop" else if arcs.isEmpty then "empty" else if dup then "valid-dups" else "valid"]
     pure (classify observed model propFail (nt := !selfLoop && !arcs.isEmpty) tags)
+
+def hFromArcs : Handler := fun _ args observed =>
+  match args with
+  | [repr, arcs] => do runFromArcs (← V.atom? repr) arcs [] observed
+  | _ => none
+
+def hFromArcsLazy : Handler := fun _ args observed =>
+  match args with
+  | [repr, shape, .l entries] => do
+    let shape ← V.atom? shape
+    let eff ← effective shape entries
+    runFromArcs (← V.atom? repr) (.l eff) ["lazy", shape] observed
+  | _ => none
+
+/-- Stress only: a matrix of order ≥ 65 536 (cell indices ≥ 2^32) cannot be replayed by the list
+model of the blocks.  By `C16.converts_from_mx` (and C01 for the `add_arc` build) both the source's
+and the target's arcs are the canonical list of the given arcs; that is used as model output AND
+as oracle. -/
+def hMxBig : Handler := fun _ args observed =>
+  match args with
+  | [order, arcs, _tgt] => do
+    let n ← V.nat? order
+    let arcs ← V.listOf? (V.pair? V.nat? V.nat?) arcs
+    if arcs.any (fun a => a.1 == a.2 || a.1 ≥ n || a.2 ≥ n) then none
+    let canonL := H14.canonArcs arcs
+    let canon := V.ofPairs canonL
+    let want := [V.l [V.ofNat n, canon, canon]]
+    let propFail : Option String :=
+      match observed with
+      | [V.a "panic"] => some "valid matrix / conversion panicked"
+      | [V.l [o, src, out]] =>
+        match V.nat? o, V.listOf? (V.pair? V.nat? V.nat?) src, V.listOf? (V.pair? V.nat? V.nat?) out with
+        | some o, some src, some out =>
+          if o ≠ n then some "order differs"
+          else if H14.canonArcs src != canonL then some s!"arcs() of the matrix differ from the arcs that were added: expected {canon}"
+          else if H14.canonArcs out != canonL then some s!"arcs of the converted digraph differ from the source's: expected {canon}"
+          else none
+        | _, _, _ => some "unreadable observation"
+      | _ => some "unreadable observation"
+    pure (classify observed want propFail (nt := true) ["mx-big", if arcs.any (fun a => a.1 * n + a.2 ≥ 2^32) then "cell>=2^32" else "cell<2^32"])
   | _ => none
 
 def handlers : List (String × Handler) :=
-  [("conv_chain", hChain), ("conv_from_rows", hFromRows), ("conv_from_arcs", hFromArcs)]
+  [("conv_chain", hChain), ("conv_from_rows", hFromRows), ("conv_from_arcs", hFromArcs),
+   ("conv_from_rows_lazy", hFromRowsLazy), ("conv_from_arcs_lazy", hFromArcsLazy), ("conv_mx_big", hMxBig)]
 
 end GraafVerif.Driver.H16
